@@ -271,7 +271,7 @@ def correspond(name, cases, table, stats=None):
                 st.samples.append({'op': c.op, 'params': c.params, 'tag': c.tag,
                                    'input_shapes': [None if t is None else list(np.shape(t)) for t in c.tensors],
                                    'output_shapes': [None if o is None else list(np.shape(o)) for o in io],
-                                   'first_output_head': [float(v) for v in np.asarray(io[0]).ravel()[:6]]})
+                                   'first_output_head': [float(v) for v in np.asarray(next(o for o in io if o is not None)).ravel()[:6]]})
     return st
 
 
